@@ -1,6 +1,7 @@
 import OdakProofs.Lemmas.Kernels
 import OdakModel.Beam
 import OdakProofs.Lemmas.GenKernels
+import OdakProofs.Lemmas.GenPipelines
 import Mathlib.Analysis.SpecialFunctions.Sqrt
 import Mathlib.Analysis.Calculus.Deriv.Mul
 import Mathlib.Analysis.Calculus.Deriv.Add
@@ -119,5 +120,39 @@ theorem C04_gen_np_ir_kernel_is_chirp (n m : Nat) (dx lam k z : ℝ) (i : Fin n)
   rw [gen_irKernelN_eq]
   simp only [npIrKernel, Grid.get_ofFn, irChirp]
   exact ⟨_, rfl⟩
+
+end Odak
+
+/-! ## The same physics through the PIPELINES regenerated from the Python source on this run
+  (`OdakModel/Generated/Pipelines.lean`, tied to the hand model by `OdakProofs/Lemmas/GenPipelines.lean`). -/
+namespace Odak
+open Gen
+
+/-- **a stack is propagated field by field.**  torch `custom` calls `fftshift` / `ifftshift` WITHOUT `dim`, so for a stack
+    `[k × n × m]` the batch axis is rolled by `k/2` before the products with the aperture and the kernel and rolled back after
+    them.  The regenerated stack pipeline equals the 2-D pipeline applied to every field of the stack, for EVERY `k` (odd `k`
+    included: `ifftshift ∘ fftshift = id` along the batch axis) and every scalar instantiation; it stops compiling when only one
+    of the two shifts is restricted to the spatial axes. -/
+theorem C04_gen_stack_is_fieldwise {α : Type} [Num α] {k n m : Nat} (us : CStack α k n m) (H A : CGrid α n m) :
+    customStackT us H A = us.map (fun u => customT u H A) ∧
+    ∀ i : Fin k, (customStackT us H A)[i] = custom us[i] H A := by
+  refine ⟨gen_customStackT_eq us H A, fun i => ?_⟩
+  rw [gen_customStackT_eq]
+  show (Vector.map _ _)[i.val] = _
+  rw [Vector.getElem_map]; rfl
+
+/-- every regenerated torch method hands the kernel of ITS OWN propagation type to `custom` (with the caller's aperture), and the
+    dispatch of `propagate_beam` sends each type string to that method: all methods share one pipeline and differ in the kernel
+    only, so the kernel statements of C04 are statements about what `propagate_beam` computes -/
+theorem C04_gen_methods_share_the_custom_pipeline {n m : Nat} (u A Kc : CGrid ℝ n m) (dx lam k z : ℝ) (s0 s1 s2 s3 : Nat) :
+    propagateBeamT_FFF "Angular Spectrum" u A Kc dx lam k z s0 s1 s2 s3 = some (custom u (asKernel n m dx lam z) A) ∧
+    propagateBeamT_FFF "Bandlimited Angular Spectrum" u A Kc dx lam k z s0 s1 s2 s3 = some (custom u (blKernel n m dx lam z) A) ∧
+    propagateBeamT_FFF "Transfer Function Fresnel" u A Kc dx lam k z s0 s1 s2 s3
+      = some (custom u (tfKernel n m dx lam (wavenumber lam) z) A) ∧
+    propagateBeamT_FFF "Impulse Response Fresnel" u A Kc dx lam k z s0 s1 s2 s3
+      = some (custom u (irKernel n m dx lam z s0 s1 s2 s3) A) ∧
+    propagateBeamT_FFF "custom" u A Kc dx lam k z s0 s1 s2 s3 = some (custom u Kc A) ∧
+    propagateBeamT_FFF "no such method" u A Kc dx lam k z s0 s1 s2 s3 = none := by
+  simp [gen_beamCore_eq, torchBeamCore, torchKernel]
 
 end Odak
